@@ -12,6 +12,8 @@ CONSTANTS
   Penalty = 2
   CooldownSkipsChecks = FALSE
   InvalidKeyNoPenalty = TRUE
+  Versions = {"cur"}
+  OldVersionSkipsPow = FALSE
 INVARIANTS C20_RejectLowersRep
 VIEW View
 CONSTRAINT Bound
